@@ -251,7 +251,7 @@ def check_known(ctx):
         pairs = C.split_ops(script, lines)
         ctx.count(1, tag="witness-" + e["id"])
         ctx.coverage["traces_validated_against_impl"] += 1
-        if e["status"] == "fixed":
+        if e["status"] == "fixed" and e["id"] == "C13-wchunk-overflow":
             ok = rc == 0 and any(l.startswith("end n=43") for l in lines) and any(l.startswith("ret=8 err=0 data=" + C.audio_hex(8)) for l in lines)
             if not ok:
                 ctx.violation("regression-" + e["id"], replay_text("the repaired defect %s is back (rc=%d): %s\n# %s" % (e["id"], rc, e["signature"], err.strip().split("\n")[-1] if err.strip() else ""), script, "ret=0"))
@@ -272,6 +272,11 @@ def check_known(ctx):
             ends = [l for l in lines if l.startswith("end n=")]
             sig = rc == 0 and len(ends) == 2 and int(ends[1][6:]) < int(ends[0][6:])
         still[e["id"]] = bool(sig)
+        if e["status"] == "fixed":
+            # a repaired defect: its witness is a regression test, the signature must stay absent
+            if sig:
+                ctx.violation("regression-" + e["id"], replay_text("the repaired defect %s (%s) is back: %s" % (e["id"], e.get("commit"), e["signature"]), script))
+            continue
         if sig:
             ctx.known_finding(e, "%s [%s] witness=%s" % (e["text"], e["id"], e["witness"]))
         elif rc != 0:
